@@ -11,13 +11,15 @@
 (* subject differs from s in one field ("subjDigest", "subjSize",          *)
 (* "subjMT") or is missing ("noSubject"), and hand-built hostile signature *)
 (* manifests of s ("hostile0", "hostile2" layers, "hostileBigBlob",        *)
-(* "hostileBigManifest").  The item's identity is its position.            *)
+(* "hostileBigManifest").  "sigAtCap" is a signature pushed through       *)
+(* PushSignature whose manifest is exactly as large as the cap allows (it  *)
+(* does not exceed it).  The item's identity is its position.              *)
 (***************************************************************************)
 EXTENDS Common, Integers
 
 CONSTANTS Subjects
 
-SigKinds     == {"sig", "legacySig"}
+SigKinds     == {"sig", "legacySig", "sigAtCap"}
 HostileKinds == {"hostile0", "hostile2", "hostileBigBlob", "hostileBigManifest"}
 ForeignKinds == {"foreignType", "legacyForeign", "subjDigest", "subjSize", "subjMT", "noSubject"}
 Kinds        == SigKinds \cup HostileKinds \cup ForeignKinds
